@@ -13,16 +13,29 @@ Factories (each returns a list of Obl; `prefix` = DESIGN sub-item letter of the 
 """
 from vp import Obl
 
-KIT = ["vp_nondet.c", "vp_mem.c", "vp_alloc.c"]
+KIT = ["vp_nondet.c", "vp_mem.c", "vp_d5_alloc.c"]
+VEC = {"vp_realloc_ptrs.0": 11}   # VP_VEC_CAP + 1
 VER_REAL = ["dbformat.c", "util/comparator.c", "util/buffer.c", "util/slice.c", "util/options.c"]
 INC = ["version_set.c", "util/vector.c"]
 
-# comparator call sites reached by these harnesses (goto-instrument labels)
-CMP_FP = ["ldb_find_file.function_pointer_call.1/ldb_ikc_compare",
-          "ldb_ikc_compare.function_pointer_call.1/slice_compare"]
+# comparator call sites of version_set.c / dbformat.c (goto-instrument labels; the restriction is itself asserted by CBMC)
+_UC = ["after_file.1", "before_file.1", "find_smallest_boundary_file.2", "ldb_compaction_is_base_level_for_key.1",
+       "ldb_compaction_is_base_level_for_key.2", "ldb_ikc_compare.1", "ldb_version_get_overlapping_inputs.1",
+       "ldb_version_get_overlapping_inputs.2", "ldb_version_get_overlapping_inputs.3", "ldb_version_get_overlapping_inputs.4",
+       "ldb_version_for_each_overlapping.1", "ldb_version_for_each_overlapping.2", "ldb_version_for_each_overlapping.4",
+       "save_value.1"]
+_IC = ["by_smallest_key.1", "find_largest_key.1", "find_smallest_boundary_file.1", "find_smallest_boundary_file.3",
+       "ldb_compaction_should_stop_before.1", "ldb_find_file.1", "ldb_versions_get_range.1", "ldb_versions_get_range.2",
+       "ldb_versions_pick_compaction.1", "ldb_versions_approximate_offset.1", "ldb_versions_approximate_offset.2"]
 
 
-OVL_FP = CMP_FP + []
+def _site(x, target):
+    fn, n = x.rsplit(".", 1)
+    return "%s.function_pointer_call.%s/%s" % (fn, n, target)
+
+
+CMP_FP = [_site(x, "slice_compare") for x in _UC] + [_site(x, "ldb_ikc_compare") for x in _IC]
+OVL_FP = CMP_FP
 GOI_FP = []
 
 
@@ -50,7 +63,7 @@ def overlap_obls(prefix):
                         (1, 3, "quick"), (1, 4, "thorough")):
         out.append(Obl("%s.overlaps-range-L%d-N%d" % (prefix, lv, n), "vset/overlap.c", real=VER_REAL, include_real=INC, kit=KIT,
                        defs={"VP_MODE": 1, "VP_LV": lv, "VP_N%d" % lv: n}, unwind=9,
-                       unwindset={"memcmp.0": 3, "memcpy.0": 3, "ldb_find_file.0": 4, "ldb_realloc.0": 10},
+                       unwindset={"memcmp.0": 3, "memcpy.0": 3, "ldb_find_file.0": 4},
                        restrict_fp=OVL_FP, tier=tier, timeout=300,
                        functions=["ldb_some_file_overlaps_range", "ldb_version_overlap_in_level", "after_file", "before_file",
                                   "ldb_find_file", "ldb_ikey_set"],
@@ -60,8 +73,8 @@ def overlap_obls(prefix):
     # get_overlapping_inputs: level 0 (closure with restart) and level 2
     for lv, n, tier in ((0, 1, "quick"), (0, 2, "quick"), (0, 3, "quick"), (2, 1, "quick"), (2, 2, "quick"), (2, 3, "quick")):
         out.append(Obl("%s.overlapping-inputs-L%d-N%d" % (prefix, lv, n), "vset/overlap.c", real=VER_REAL, include_real=INC, kit=KIT,
-                       defs={"VP_MODE": 3, "VP_LV": lv, "VP_N%d" % lv: n, "VP_ALLOC_TRACK": 6}, unwind=9,
-                       unwindset={"memcmp.0": 3, "vp_realloc_ptrs.0": 9, "vp_realloc_ptrs.1": 9, "vp_realloc_ptrs.2": 9,
+                       defs={"VP_MODE": 3, "VP_LV": lv, "VP_N%d" % lv: n, "VP_VEC_CAP": 10}, unwind=9,
+                       unwindset={"memcmp.0": 3, "vp_realloc_ptrs.0": 11, "harness.0": 11,
                                   "ldb_version_get_overlapping_inputs.0": (n * (n + 1) + 2) if lv == 0 else n + 1},
                        restrict_fp=GOI_FP, tier=tier, timeout=300,
                        functions=["ldb_version_get_overlapping_inputs"],
@@ -71,9 +84,9 @@ def overlap_obls(prefix):
     for t, tier in (((1, 1, 1, 1), "quick"), ((2, 1, 0, 1), "quick"), ((0, 2, 1, 0), "quick"), ((1, 0, 2, 1), "quick"),
                     ((0, 1, 1, 2), "quick"), ((0, 0, 0, 0), "quick"), ((2, 2, 2, 2), "thorough"), ((1, 2, 2, 2), "thorough")):
         out.append(Obl("%s.pick-level-%s" % (prefix, _lname(t)), "vset/overlap.c", real=VER_REAL, include_real=INC, kit=KIT,
-                       defs=dict(_levels(t), VP_MODE=2, VP_ALLOC_TRACK=6), unwind=9,
-                       unwindset={"memcmp.0": 3, "memcpy.0": 3, "ldb_find_file.0": 4, "ldb_realloc.0": 10,
-                                  "vp_realloc_ptrs.0": 9, "vp_realloc_ptrs.1": 9, "vp_realloc_ptrs.2": 9},
+                       defs=dict(_levels(t), VP_MODE=2, VP_VEC_CAP=10), unwind=9,
+                       unwindset={"memcmp.0": 3, "memcpy.0": 3, "ldb_find_file.0": 4,
+                                  "vp_realloc_ptrs.0": 11, "harness.0": 11},
                        restrict_fp=OVL_FP + GOI_FP, tier=tier, timeout=400,
                        functions=["ldb_version_pick_level_for_memtable_output", "ldb_version_overlap_in_level",
                                   "ldb_some_file_overlaps_range", "ldb_version_get_overlapping_inputs", "total_file_size",
